@@ -3,7 +3,7 @@ from oblib import ob
 
 BOUNDS = {
     "quick": "one struct type with int8, string-tagged int8, bool, string, []int8, map[string]int8, *int8, [2]bool, nested struct, []byte (base64), any, *struct; six shapes (every int8 + strings / populated containers / empty containers and nested pointer with every uint8 / untyped values behind the interface / every int8 through the string tag / symbolic slice element); every int8/uint8/bool value and every well-formed UTF-8 string of 1-2 bytes is covered symbolically; options StringifyNumbers x Deterministic. Plus: every int64/uint64 as number, quoted number and map key (cvc5 int-blasting); [3]byte and []byte with symbolic contents under no option / FormatByteArrayAsArray alone / FormatBytesWithLegacySemantics alone / both; two-entry maps keyed by *string (1 symbolic byte each) and *int8 (all values). Durations: every int64 time.Duration through appendDurationBase10/parseDurationBase10 (nano, micro, milli, sec; both signs) and (thorough tier) every non-negative one through the ISO 8601 pair; every instant with 0 <= seconds < 2^40 and any nanosecond through appendTimeUnix/parseTimeUnix in seconds (unit level: the kernels are called directly). Outside: floats, time layouts, negative/other-unit unix timestamps and negative ISO 8601 durations (solver timeouts: reported as such, not claimed), time layouts on the typed path, other type graphs. Typed path: every int64 duration as a struct member tagged format:sec, format:nano and string,format:milli through Marshal and Unmarshal with ExperimentalSupportFormatTag; every instant with 0 <= seconds < 2^40 as a member tagged format:unix.",
-    "thorough": "as quick with all StringifyNumbers x Deterministic combinations for every shape and all 8 wide-integer partitions, strings of 2 bytes in shape 0 under default options.",
+    "thorough": "as quick with all StringifyNumbers x Deterministic combinations for every shape and all 8 wide-integer partitions.",
 }
 ASSUMPTIONS = [
     "the 64-bit obligations (wide/*) are decided by cvc5 1.0 with --solve-bv-as-int=sum (bit-blasting back ends time out on the decimal arithmetic); the 8-bit obligations by z3",
@@ -16,7 +16,7 @@ def obligations(tier):
     q = tier == "quick"
     L = []
     for shape in range(6):
-        for sl in ([1] if (q or shape != 0) else [1, 2]):
+        for sl in [1]:  # two-byte strings in shape 0 exceed 15 minutes on a loaded machine: dropped from both tiers
             for st in (False, True):
                 for det in ((False,) if (q and st) else (False, True)):
                     if sl == 2 and (st or det):
